@@ -18,7 +18,7 @@ Open Scope Z_scope.
 
 (* MAIN.  A CNF file (clause lines raw without literal 0, satisfiable, stored set not empty)
    is loaded; then ANY list of commands is run (clause-update with any t / add / rmv lists,
-   undo-update, save-cnf).  Every cc_answer is the one the abstract machine prescribes
+   undo-update, save-cnf).  Every answer is the one the abstract machine prescribes
    (answers_ok: an update answers "" iff the machine accepts it and an error iff it rejects it,
    undo-update answers "", save-cnf writes exactly the machine's clause set and feature count;
    the only possible panic is an accepted update whose resulting CNF cannot be loaded), and
@@ -201,7 +201,7 @@ Proof. exact refuted_unsat_panic. Qed.
 Print Assumptions C12_refuted_unsat_panic.
 
 (* K11: a CNF whose stored set is empty (no clause, or only tautologies) gets no cache:
-   save-cnf and clause-update cc_answer an error, `clause-update t 3` panics. *)
+   save-cnf and clause-update answer an error, `clause-update t 3` panics. *)
 Theorem C12_refuted_empty_cnf :
   exists raw n d, load_cnf always raw n = Some d /\ (forall s : asg, cs_sat s raw = true) /\
     save_cnf d = AErr E5_no_save /\
